@@ -105,8 +105,11 @@ class Baton(object):
   """Exactly one of the harness thread and the sender thread runs at any time."""
 
   def __init__(self, timeout=120.0):
-    self._h = threading.Semaphore(0)
-    self._t = threading.Semaphore(0)
+    # raw locks used as binary semaphores (released by the other thread); much cheaper than threading.Semaphore
+    self._h = threading.Lock()
+    self._t = threading.Lock()
+    self._h.acquire()
+    self._t.acquire()
     self.timeout = timeout
     self.thread = None
     self.done = False
